@@ -208,7 +208,7 @@ def guarded_division(chk, cid, prog, p, cfgname):
             if len(x.c) > 2:
                 walk(x.c[2], guards + [(x.c[0], False)])
             return
-        if x.k == 'Conditional':
+        if x.k == 'Cond':
             walk(x.c[0], guards)
             walk(x.c[1], guards + [(x.c[0], True)])
             walk(x.c[2], guards + [(x.c[0], False)])
